@@ -3,9 +3,9 @@
    OCaml's) and ExtrOcamlString (ascii -> char, string -> char list).
    No Extract Constant of ours; Z / N / positive / nat stay Coq's inductive types. *)
 From Coq Require Import Extraction ExtrOcamlBasic ExtrOcamlString.
-From Cerb Require Import Values PyOps Regex Errors Facts SpecFacts Tree Pool Validate Normalize Handler Expand.
+From Cerb Require Import Values PyOps Regex Errors Facts SpecFacts Tree Pool Validate Normalize Handler Expand Accept.
 From Cerb Require Import Current.
 Extraction Language OCaml.
 Extraction "model.ml"
-  current documented validate_ctx api_validate api_normalized render expand_top pool_coerce pool_setter pool_check build fetch_errors fetch_node all_errors tree_is_empty
+  current documented validate_ctx api_validate api_normalized render expand_top accepts base_validation_rules base_normalization_rules pool_coerce pool_setter pool_check build fetch_errors fetch_node all_errors tree_is_empty
   flatten tflat regex_fullmatch py_eq py_lt py_in py_set py_len truthy hashable is_instance.
